@@ -1,5 +1,5 @@
 /-
-  `consolidate <schemas-vir>` → `ok <schemas-vir sorted by package>` | `conflict`
+  `consolidate <schemas-vir>` → `ok <schemas-vir, packages in order of first appearance>` | `conflict`
   Object equality is equality of the VIR rendering (what the harness compares as well).
 -/
 import Cog.Merge.Model
@@ -17,7 +17,7 @@ def consolidateLine (rest : String) : String :=
   match (Sexp.parse rest).bind Vir.schemasIn with
   | none => "bad-vir"
   | some ss =>
-    let order := (packages ss).foldr insertSortedStr []
+    let order := packages ss   -- Consolidate walks packages in order of first appearance
     match consolidate objBeqVir ss order with
     | .ok r => "ok " ++ (Vir.schemasOut r).render
     | .conflict => "conflict"
